@@ -283,3 +283,11 @@ M("C08", "C08.cmpop", "src/scenic/syntax/relations.py", "        if len(node.key
 M("C06", "C06.cycles", "src/scenic/core/object_types.py", "                specifying_spec = properties[modifying_inv[spec]]\n                dfs(specifying_spec)", "                specifying_spec = properties[modifying_inv[spec]]\n                if specifying_spec._dfs_state == 0:\n                    dfs(specifying_spec)", "c06-dfs-skips-in-progress")
 M("C04", "C04.computed", _R, "                overlap = self._containsPointExact(\n                    other._interiorPoint\n                ) or other._containsPointExact(self._interiorPoint)\n                return overlap", "                return self._containsPointExact(other._interiorPoint)", "c04-one-sided-interior-test")
 RF("C04", _R, "                overlap = self._containsPointExact(\n                    other._interiorPoint\n                ) or other._containsPointExact(self._interiorPoint)\n                return overlap", "                return other._containsPointExact(self._interiorPoint) or self._containsPointExact(\n                    other._interiorPoint\n                )", "c04-rf-interior-test-commuted")
+
+M("C13", "C13.invariants", _IV, "            behavior.checkInvariants(agent, *behavior._args, **behavior._kwargs)", "            behavior.checkInvariants(None, *behavior._args, **behavior._kwargs)", "c13-tryinterrupt-invariants-none")
+M("C13", "C13.flags", _CO, "        usedBreak, usedContinue = self.usedBreak, self.usedContinue\n        self.usedBreak, self.usedContinue = oldUsedBreak, oldUsedContinue\n", "        usedBreak, usedContinue = self.usedBreak, self.usedContinue\n", "c13-restore-dropped")
+M("C13", "C13.invariants", _DS, "        if self._delayingPreconditionCheck:\n            self._checkAllPreconditions()", "        if self._delayingPreconditionCheck:\n            self._delayingPreconditionCheck = False\n            self._checkAllPreconditions()", "c13-delay-flag-cleared")
+M("C13", "C13.invariants", _DS, "        if self._delayingPreconditionCheck:\n            self._checkAllPreconditions()", "        if self._delayingPreconditionCheck and self._compose is not None:\n            self._checkAllPreconditions()", "c13-delayed-check-narrowed")
+RF("C13", _DS, "        if self._delayingPreconditionCheck:\n            self._checkAllPreconditions()", "        if not self._delayingPreconditionCheck:\n            pass\n        else:\n            self._checkAllPreconditions()", "c13-rf-delayed-check-inverted")
+M("C14", "C14.started", _DS, "            try:\n                self._checkAllPreconditions()\n            except BaseException:\n                # We have not started anything yet, but must not stay marked as running:\n                # this object is started again by the next simulation.\n                super()._stop()\n                raise\n", "            self._checkAllPreconditions()\n", "c14-start-unprotected-guard")
+M("C14", "C14.started", _DS, "                super()._stop()\n                raise\n", "                raise\n", "c14-start-handler-keeps-mark")
